@@ -6,7 +6,8 @@ from props.util import nontrivial_default
 RULE = ("correspondence: hkdf_extract / hkdf_expand / KeyGen / hmac / sha256 of the model (native SHA-256 model, itself compared "
         "with hashlib here) vs the real functions: salts/IKMs/infos of length 0..300, output lengths 0..8160 and beyond (refused), "
         "IKM 0..128, key_info 0..64; predicates: real output vs independent RFC 2104/5869 + BLS draft v4 KeyGen transcription, range [1, r-1]")
-EXTRA_MODULES = {"Props.TieHash": "PyEcc.Tie."}
+EXTRA_MODULES = {"Props.TieHash": "PyEcc.Tie.", "Props.TieBls": "PyEcc.Tie."}
+
 HYPOTHESES = ["HB4_hash"]
 NOT_YET_PROVED = []
 ASSUMPTIONS = ["math.ceil(length / 32) modelled as exact integer ceiling (swept exhaustively over 0..8160+ on every run)"]
